@@ -288,6 +288,24 @@ def make_replay(pid, v, repo, here, known_entry=None, seed=0):
         rec['replay_cmd'] = f"{replay_bin(here)} {v.get('family')}"
         rec['failing_input_found'] = True
         rec['input'] = (v.get('observed') or {}).get('output')
+    elif v.get('one_spelling') and v.get('witness_family'):
+        # a Kani harness that pins one of several legal spellings (e.g. the order of the members of a Hayson object): the failed
+        # assertion alone is not a violation; the property's enumerators decide
+        fam = v['witness_family']
+        fams = fam if isinstance(fam, list) else [fam]
+        rec['counterexample'] = dict(raw=v.get('concrete'))
+        if build_replay(here) == 0:
+            rec['witness_search'] = 'small-value enumerators ' + ', '.join(fams)
+            for f1 in fams:
+                r = run_replay(here, f1, [], timeout=120)
+                rec['observed_on_real_code'] = r
+                rec['replay_cmd'] = f'{replay_bin(here)} {f1}'
+                if r['outcome'] != 'ok':
+                    rec['failing_input_found'] = True
+                    rec['input'] = r['output']
+                    break
+        else:
+            rec['witness_search'] = 'replay crate does not build against the current tree'
     else:
         conc = v.get('concrete')
         if conc and v.get('schema') == 'raw' and v.get('replay_family'):
